@@ -369,7 +369,11 @@ pub fn debug_in_ctx(g: &dyn DynGen, ctx: u8) -> (String, String) {
         2 => {
             // the scoped thread is joined before `g` can go away
             let p = SendRef(unsafe { std::mem::transmute::<*const dyn DynGen, *const (dyn DynGen + 'static)>(g as *const dyn DynGen) });
-            std::thread::scope(|s| s.spawn(move || p.texts()).join()).expect("harness: formatting thread")
+            // (if the system refuses a thread right now, this thread does the formatting)
+            std::thread::scope(|s| match std::thread::Builder::new().spawn_scoped(s, move || p.texts()) {
+                Ok(h) => h.join().expect("harness: formatting thread"),
+                Err(_) => g.debug(),
+            })
         }
         _ => g.debug(),
     }
